@@ -492,8 +492,7 @@ def regions_tile(n):
             and implies(n > 0, ghost('gs', 0) == 0))
 
 
-@contract(S + "split")
-class _:
+class _SplitContract:
     """never raises and terminates (C01): every BlockAbortedException becomes a ParsingFailedBlock, the parser-state
     and regex-mismatch branches are dead under A-RE, Library.add is called without fail_on_duplicate_key; the marks
     are consumed strictly left to right and a handed-back '@' mark is the next block start (C04); the library given
@@ -510,9 +509,8 @@ class _:
     contract.)"""
     uses_marks = True
     reveals = ["raw_is_region"]      # opened only for the failed block, whose raw text split() slices itself
-    sorts = {"self": "ref:Splitter", "library": "optref:ref:Library", "result": "ref:Library"}
     requires = {"fresh-splitter": "midx(self._unaccepted_mark) == -1 and self._current_line == -1 and len(self.bibstr) == BLEN() and isint(self._implicit_comment_start) and ival(self._implicit_comment_start) == 0 and self._implicit_comment_start_line == -1",
-                "library": "implies(not isnone(library), WF(library))"}
+                }
     locals = {"library": "ref:Library"}
     ghost_code = [
         ("self._markiter = re.finditer(", [("gk", None, "0"), ("glast", None, "-1")]),
@@ -527,18 +525,47 @@ class _:
     ]
     loops = {1: {"invariant": {
         "scan": "scan(self) and not isnone(self._markiter)",
-        "library": "allocated(library) and allocated(library._blocks) and allocated(library._entries_by_key) and allocated(library._strings_by_key) and WF(library) and implies(not isnone(old(library)), same(library, old(library)))",
+        "library": "allocated(library) and allocated(library._blocks) and allocated(library._entries_by_key) and allocated(library._strings_by_key) and WF(library) and (fresh(library) if isnone(old(library)) else same(library, old(library)))",
         "comment-start": "comment_start_ok(self) and isint(self._implicit_comment_start)",
         "tiling": "regions_tile(ghost('gk')) and ival(self._implicit_comment_start) == (ghost('ge', ghost('gk') - 1) if ghost('gk') > 0 else 0)",
         "source-order": "-1 <= ghost('glast') < len(library._blocks) and forall(k, 0 <= k < ghost('gk'), implies(ghost('gkind', k) == 1, 0 <= ghost('gi', k) <= ghost('glast') and ref_id(library._blocks[ghost('gi', k)]) == ghost('gb', k))) and forall((k, q), 0 <= k < q < ghost('gk'), implies(ghost('gkind', k) == 1 and ghost('gkind', q) == 1, ghost('gi', k) < ghost('gi', q)))",
         "tiling-raw": "forall(k, 0 <= k < ghost('gk'), implies(ghost('gkind', k) == 1, allocated(as_ref(ghost('gb', k), 'ref:Block')) and ghost('gb', k) > 0 and region_raw(self, k)))",
     }, "decreases": "2 * (NMARKS() - CUR()) + (1 if midx(self._unaccepted_mark) >= 0 else 0)", "props": ("C01", "C03", "C04", "C08")}}
     ensures = {
-        "C01.returns-library": "WF(result) and implies(not isnone(library), same(result, library)) and implies(isnone(library), fresh(result))",
+        "C01.returns-library": "WF(result)",
         "C04.all-consumed": "CUR() == NMARKS() and midx(self._unaccepted_mark) == -1",
         "C03.regions-tile-the-text": "regions_tile(ghost('gk')) and ghost('gk') > 0 and ghost('ge', ghost('gk') - 1) == BLEN()",
         "C02+C04.source-order": "forall(k, 0 <= k < ghost('gk'), implies(ghost('gkind', k) == 1, 0 <= ghost('gi', k) < len(result._blocks) and ref_id(result._blocks[ghost('gi', k)]) == ghost('gb', k))) and forall((k, q), 0 <= k < q < ghost('gk'), implies(ghost('gkind', k) == 1 and ghost('gkind', q) == 1, ghost('gi', k) < ghost('gi', q)))",
         "C03.block-regions-are-raw": "forall(k, 0 <= k < ghost('gk'), implies(ghost('gkind', k) == 1, region_raw(self, k)))",
     }
     raises = {}
-    modifies = ["*"]
+
+
+SPLITTER_ATTRS = ["Splitter._markiter", "Splitter._unaccepted_mark", "Splitter._current_line", "Splitter._current_char_index",
+                  "Splitter._open_brackets", "Splitter._is_quote_open", "Splitter._expected_next", "Splitter._implicit_comment_start_line",
+                  "Splitter._implicit_comment_start"]
+SPLIT_GHOSTS = ["ghost:cur:int", "ghost:fe:arr", "ghost:fr:arr", "ghost:fks:arr", "ghost:ec:int", "ghost:gk:int", "ghost:gs:arr", "ghost:ge:arr",
+                "ghost:gkind:arr", "ghost:gb:arr", "ghost:gi:arr", "ghost:glast:int"]
+
+
+def _split_variant(doc, library_sort, extra_requires, target_clause, footprint):
+    d = {k: v for k, v in vars(_SplitContract).items() if not k.startswith("__")}
+    d["__doc__"] = _SplitContract.__doc__ + "\n\n    " + doc
+    d["sorts"] = {"self": "ref:Splitter", "library": library_sort, "result": "ref:Library"}
+    d["requires"] = dict(d["requires"], **extra_requires)
+    d["ensures"] = dict(d["ensures"], **{"C01.returns-library": target_clause})
+    d["modifies"] = SPLITTER_ATTRS + footprint + SPLIT_GHOSTS
+    return type("_", (), d)
+
+
+# The footprint is exact: the splitter's own attributes and -- when a library is given -- the contents of its block list
+# and two indexes; every other object that existed stays as it was (frame obligations).  These two variants are what the
+# entry-point proofs (contracts/entrypoint.py, C20) use as the interface of split().
+contract(S + "split#new")(_split_variant(
+    "Variant: no target library -- a fresh, well-formed Library is returned.", "none", {},
+    "WF(result) and fresh(result)", []))
+contract(S + "split#into")(_split_variant(
+    "Variant: a target library is given -- it is the library returned, and it stays well formed.", "ref:Library",
+    {"library": "WF(library)"},
+    "WF(result) and same(result, library)",
+    ["@content(library._blocks)", "@content(library._entries_by_key)", "@content(library._strings_by_key)"]))
